@@ -7,23 +7,47 @@ TB = ("Trusted: z3/cvc5; the pyvc encoding of the Python subset (typed heap, lis
       "uninterpreted strings); extraction drops logging/docstrings/message text; HEAP-CLOSED and TYPES assumptions; assumed "
       "contracts on dependencies listed in the evidence. The bounded native floor is labelled bounded and never counted as proved.")
 
+DED = ("contract-based deductive verification of the real source (pyvc: ast -> symbolic execution against sidecar contracts -> z3/cvc5), "
+       "with the native bounded floor as labelled stand-in and replay")
 CLAIMS = {
- 'C08': ('proof', "Every function of the apriori analysis (evaluate_*, propagate_* incl. the recursive contract with a well-founded measure, "
-         "calculate_viability_and_necessity) is verified against sidecar contracts whose top-level post is the property: no equation violated, "
-         "base nodes carry their status, every solution of the equations lies below the computed labelling (greatest fixed point), hence order "
-         "independence. Obligations are regenerated from the real source on every run and discharged by z3/cvc5; a native bounded floor "
-         "(all graphs <=2 nodes + random) replays counterexamples and stands in for anything undecided.", '4 C08, A.4'),
- 'C12': ('proof', "query.py and the node predicates it uses are verified function by function (loop invariants over the done-bag, frame = only "
-         "fresh / caller-supplied lists change); the clause 'incremental = recomputed' is lemma INC discharged over the two contracts. "
-         "Bounded floor: all labelled graphs <=2-3 nodes, 2 attackers.", '4 C12, A.3'),
+ 'C01': ('other', "Deductive: the evaluator _process_step_expression is verified arm by arm against the spec function Sem (induction on expression rank) for transitive-free expressions, "
+         "Model.get_associated_assets_by_field_name against field navigation on the model view (self-links, both orientations), is_subasset_of against the "
+         "reflexive-transitive closure incl. termination. Bounded: the transitive arm, the linking loop of _generate_graph and termination on cyclic models are decided by the floor "
+         "(languages <=3 types, expression depth <=3, models <=3 assets incl. cycles and self-links).", '4 C01'),
+ 'C02': ('other', "Deductive: add_node (id assignment, duplicate-id rejection, both indexes), full_name, the lookups and lemma LOOKUP (a lookup returns exactly the member with that key). "
+         "Bounded: the node loop of _generate_graph (one node per asset x step, attributes, existence status) is decided by the floor.", '4 C02'),
+ 'C03': ('other', "Deductive: _get_attacks_for_asset_type is proved pure (nothing allocated before the call is written: the specification stays unmodified), separated (every container reachable from "
+         "the result is fresh) and terminating, against the assumed contract DEEPCOPY. Bounded: the fold equation (override / extend / no-reaches) is decided by the floor over all chains of depth <=4.", '4 C03'),
+ 'C04': ('exploration', "Bounded only so far: printer -> real compiler round trip over enumerated and random specifications, include layouts, coreLang .mar; no contract on the visitor yet.", '4 C04, 5'),
+ 'C05': ('other', "Deductive: get_associated_assets_by_field_name under the assumed object model of python_jsonschema_objects. Bounded: all histories of <=3 API operations (valid and invalid "
+         "arguments) against an abstract reference model, random histories to 12 operations. Known findings are listed in known_findings.txt.", '4 C05'),
+ 'C06': ('exploration', "Bounded only: all languages of a 2-type family + random 3-type languages; generated classes, defaults, rejections. Enforcement by python_jsonschema_objects is an assumption.", '4 C06'),
+ 'C07': ('exploration', "Bounded only: API-built and hand-written models x {json, yml, yaml}; json/yaml are external.", '4 C07'),
+ 'C08': ('proof', "Every function of the apriori analysis (evaluate_*, propagate_* incl. the recursive contract with a well-founded measure, calculate_viability_and_necessity) is verified against "
+         "sidecar contracts whose top-level post is the property: no equation violated, base nodes carry their status, every solution lies below the computed labelling (greatest fixed point), "
+         "hence order independence. The floor (all graphs <=2 nodes + random) replays counterexamples.", '4 C08, A.4'),
+ 'C09': ('other', "Deductive: add_node, remove_node, add_attacker, remove_attacker, compromise/undo (+ lemma COMP-WF), prune, the lookups preserve wf_graph (W0..W5) and have exact effects; "
+         "raising calls leave the observable state unchanged. Bounded: regenerate_graph, attach_attackers, deepcopy, save/load inside histories (all histories <=3 operations on graphs <=3 nodes).", '4 C09, A.5'),
+ 'C10': ('exploration', "Bounded only so far: graphs <=4 nodes x {json, yml, dict} x {model, no model}, typed field comparison.", '4 C10'),
+ 'C11': ('other', "Deductive: Attacker.compromise / undo_compromise and the node-side delegates (exact delta, idempotence), lemma COMP-WF, remove_attacker (no node stays compromised), add_attacker. "
+         "Bounded: attach_attackers (contract in progress) by the floor: 2 attackers x 3 nodes, sequences <=5, 6342 attach scenarios.", '4 C11'),
+ 'C12': ('proof', "query.py and the node predicates it uses are verified function by function (loop invariants over the done-bag, frame = only fresh / caller-supplied lists change); "
+         "'incremental = recomputed' is lemma INC discharged over the two contracts.", '4 C12, A.3'),
+ 'C13': ('proof', "prune_unviable_and_unnecessary_nodes and AttackGraph.remove_node are verified: exactly the prunable nodes are removed, labels are outside the frame, wf_graph (incl. attackers' "
+         "references) is preserved. Floor: all labelled graphs <=3 nodes.", '4 C13'),
+ 'C14': ('exploration', "Bounded only so far: graphs <=3 nodes with attackers; freshness of every container, closure, 28 mutations on either side.", '4 C14'),
+ 'C15': ('other', "Deductive: is_subasset_of == reflexive-transitive closure (with termination), get_asset_by_name. Bounded: all language structures over <=3 types incl. ill-formed ones, "
+         "over-approximation of attack-graph edges.", '4 C15'),
+ 'C16': ('other', "Deductive: the frame part — _get_attacks_for_asset_type writes nothing allocated before the call (language specification untouched) and its result is fresh. Bounded: same-process, "
+         "fresh-process (hash seeds) and wrapper determinism by the floor.", '4 C16'),
+ 'C17': ('exploration', "Bounded only so far: token-level mutants of valid sources that the grammar itself rejects must make compile() raise.", '4 C17'),
+ 'C18': ('exploration', "Bounded only: inverse translation of native models into the 0.0.39 layout and .sCAD archives.", '4 C18'),
+ 'C19': ('exploration', "Bounded only: recording stand-in for the py2neo driver.", '4 C19'),
 }
-
-notes = {
- 'C08': 'Requires labels all True at entry (fresh graph) and well-formed statuses; recursion depth of CPython not modelled (T8); '
-        'termination by strict decrease of the finite set of True labels (T6). ' + TB,
- 'C12': TB,
-}
-technique = "contract-based deductive verification: VCs generated from the real Python source (ast -> symbolic execution against sidecar contracts, modular calls, loop invariants) discharged by z3 / cvc5; native bounded floor as labelled stand-in and replay"
+TB2 = TB
+notes = {k: TB2 for k in CLAIMS}
+notes['C08'] = 'Requires labels all True at entry (fresh graph) and well-formed statuses; CPython recursion depth not modelled (T8); termination by strict decrease of a finite set (T6). ' + TB
+technique = DED
 
 m = {"version": 1,
      "setup_cmd": "python3-vt -c \"import z3, sys; sys.path.insert(0,'.'); import pyvc.prover as p; p.build_registry(); print('pyvc ok, z3', z3.get_version_string())\" && /venv/bin/python -c \"import maltoolbox; print('repo importable')\" && mkdir -p evidence replays",
@@ -41,8 +65,8 @@ for p in props:
         cat, text, ref = CLAIMS[pid]
         m['checks'].append({
             "property_id": pid, "quick_cmd": "./check %s --tier quick" % pid, "thorough_cmd": "./check %s --tier thorough" % pid,
-            "evidence_file": "evidence/%s.json" % pid, "replay_cmd_template": "./check --replay {path}", "engine": "pyvc",
-            "level_claimed": {"category": cat, "text": text, "design_ref": ref}, "level_note": notes[pid], "technique": technique})
+            "evidence_file": "evidence/%s.json" % pid, "replay_cmd_template": "./check --replay {path}", "engine": "pyvc" if cat != "exploration" else "native-floor",
+            "level_claimed": {"category": cat, "text": text, "design_ref": ref}, "level_note": notes[pid], "technique": technique if cat != "exploration" else "bounded stand-in only (small-scope exhaustive + seeded random on the real objects against a reference model); contracts for this property not yet written"})
     else:
         m['not_applicable'].append({"property_id": pid, "reason": "check under construction in this session (contracts + floor being built; see DESIGN.md section 8); not yet claimed"})
 json.dump(m, open(os.path.join(ROOT, 'MANIFEST.json'), 'w'), indent=1)
